@@ -37,7 +37,6 @@ class Cov(np.ndarray):
         obj._data = {}
         obj._frame = frame
         obj.orb = orb
-        obj._orb_frame = orb.frame
 
         return obj
 
@@ -146,8 +145,6 @@ class Cov(np.ndarray):
 
         self.base.setfield(cov, dtype=float)
         self._data["frame"] = frame
-        if frame not in ("TNW", "QSW"):
-            self.orb.frame = frame
 
     @property
     def _frame(self):
@@ -157,6 +154,13 @@ class Cov(np.ndarray):
     @_frame.setter
     def _frame(self, value):
         self._data["frame"] = value
+
+    @property
+    def _orb_frame(self):
+        """Frame of the statevector the covariance is attached to, through which
+        all the conversions are done, and from which the local orbital frames are defined
+        """
+        return self.orb.frame
 
     @property
     def orb(self):
